@@ -358,6 +358,20 @@ def _grid(case, ctx):
         judge('after_reset', W2)
     ctx.close('C09.grid.weight_reads_back', list(g.weight), W2 if order == 'set_read_set_read' else
               ([1.0] * (su * sv) if order == 'default_read' else W1), 0.0, 1.0, case, feats)
+    # the weight view and the weights inside the grid points stay consistent with each other whatever was requested in between,
+    # rejected requests included (a weight vector of the wrong length, one without a positive entry)
+    for bad in ([2.0] * (su * sv - 1), [0.0] * (su * sv), [2.0] * (su * sv + 1)):
+        try:
+            g.weight = list(bad)
+        except Exception:
+            pass
+        wv = list(g.weight) if isinstance(g.weight, (list, tuple)) else g.weight
+        grid = g.grid
+        flat_w = [grid[u][v][-1] for u in range(len(grid)) for v in range(len(grid[u]))]
+        f2 = dict(feats, after_rejected=len(bad))
+        ok = isinstance(wv, list) and len(wv) == len(flat_w) == su * sv and all(a == b for a, b in zip(wv, flat_w))
+        ctx.check('C09.grid.views_consistent_after_rejected', ok, case, f2, 'weight view == weights inside the grid points',
+                  dict(weight=wv if not isinstance(wv, list) else wv[:6], grid_weights=flat_w[:6], sizes=[len(wv) if isinstance(wv, list) else None, len(flat_w)]))
 
 
 def _params(desc, kvs):
